@@ -137,7 +137,10 @@ def run_case(args):
     with open(path, 'w') as f:
         f.write(script_text)
     rc_i, out_i, err_i = run_impl(binary, path)
-    rc_m, out_m, err_m = run_model(path)
+    # judge-only scripts (helper threads + rebuild: slot placement depends on thread timing): the implementation's
+    # outputs are checked by the extracted acceptor alone, not compared slot by slot with the model's run
+    judge_only = script_text.startswith('# judge-only')
+    rc_m, out_m, err_m = (0, '', '') if judge_only else run_model(path)
     res = dict(path=path, tag=tag)
     if rc_i == 0 or out_i:
         ip = path + '.impl'
@@ -168,7 +171,7 @@ def run_case(args):
         res['status'] = 'harness_error'
         res['detail'] = [l for l in out_i.split('\n') if l.startswith('HARNESS-ERROR')][:5]
         return res
-    d = compare(out_i, out_m)
+    d = None if judge_only else compare(out_i, out_m)
     if d is not None:
         res['status'] = 'mismatch'; res['detail'] = d
         return res
